@@ -128,8 +128,91 @@ def check_queries(part, ka, A, gA):
             part.fail("solution", case, {"returned": r, "member": v in gA})
 
 
+def wide_alphabet(w):
+    """well-formed intervals at machine widths, bounds / strides on the powers of two and 2^53 (float precision) edges"""
+    M = 1 << w
+    pts = sorted(v for v in {0, 1, 2, 3, (1 << 53) - 1, 1 << 53, (1 << 53) + 1, M // 2 - 1, M // 2, M // 2 + 1, M - 3, M - 2, M - 1, 0x1234567, 1 + 3 * ((1 << 60) + 1)} if 0 <= v < M)
+    out = []
+    for lb in pts:
+        for ub in pts:
+            span = (ub - lb) % M
+            if span == 0:
+                out.append((0, lb, ub))
+                continue
+            for st in (1, 2, 3, 5, 1 << 20, (1 << 53) + 1, span):
+                if st <= span and span % st == 0:
+                    out.append((st, lb, ub))
+    return out
+
+
+def check_wide(part, w, st, lb, ub):
+    """queries on an interval too large to enumerate: the member set is known arithmetically"""
+    M = 1 << w
+    span = (ub - lb) % M
+    n = span // st + 1 if st else 1
+    ka = f"{w}:{st}[{lb},{ub}]"
+    try:
+        A = StridedInterval(bits=w, stride=st, lower_bound=lb, upper_bound=ub)
+    except Exception as e:  # noqa: BLE001
+        part.fail(f"wide:construct:raise:{type(e).__name__}", ka, str(e)[:200])
+        return
+    if (A.stride, A.lower_bound, A.upper_bound) != (st, lb, ub):
+        part.count("wide_normalised_by_constructor")
+        return
+
+    def member(v):
+        d = (v - lb) % M
+        return d <= span and (d % st == 0 if st else d == 0)
+
+    part.count("transitions")
+    try:
+        c = A.cardinality
+        if c != n:
+            part.fail("wide:cardinality", f"cardinality|{ka}", {"returned": c, "members": n})
+    except Exception as e:  # noqa: BLE001
+        part.fail(f"wide:cardinality:raise:{type(e).__name__}", f"cardinality|{ka}", str(e)[:200])
+    for v in sorted({lb, ub, (lb + st) % M, (lb + 1) % M, (ub + 1) % M, (lb - 1) % M, 0, M - 1, M // 2, (lb + st * (n // 2)) % M}):
+        part.count("transitions")
+        case = f"solution|{ka}|{v}"
+        try:
+            r = A.solution(v)
+        except Exception as e:  # noqa: BLE001
+            part.fail(f"wide:solution:raise:{type(e).__name__}", case, str(e)[:200])
+            continue
+        if bool(r) != member(v):
+            part.fail("wide:solution", case, {"returned": r, "member": member(v)})
+    if lb <= ub:  # not wrapping: the unsigned extremes are the bounds
+        for nm, exp in (("min", lb), ("max", ub)):
+            part.count("transitions")
+            case = f"{nm}|{ka}|signed=False"
+            try:
+                r = getattr(A, nm)
+                r = r(signed=False) if callable(r) else r
+            except Exception as e:  # noqa: BLE001
+                part.fail(f"wide:{nm}:raise:{type(e).__name__}", case, str(e)[:200])
+                continue
+            if r != exp:
+                part.fail(f"wide:{nm}", case, {"returned": r, "expected": exp})
+    for k in (1, 2):
+        part.count("transitions")
+        case = f"eval|{ka}|n={k}"
+        try:
+            r = A.eval(k)
+        except Exception as e:  # noqa: BLE001
+            part.fail(f"wide:eval:raise:{type(e).__name__}", case, str(e)[:200])
+            continue
+        vals = [v % M for v in r]
+        if not all(member(v) for v in vals) or len(set(vals)) != len(vals) or len(vals) != min(k, n):
+            part.fail("wide:eval", case, {"returned": r[:4], "cardinality": n})
+
+
 def _work(item):
     w, kind, chunk = item
+    if kind == "wide":
+        part = Part()
+        for st, lb, ub in chunk:
+            check_wide(part, w, st, lb, ub)
+        return part.dump()
     allk = _STATE["all"]
     part = Part()
     sis = {k: S.from_key(k) for k in allk}
@@ -168,7 +251,9 @@ def run(tier: str) -> int:
         rule="E3: every well-formed strided interval of width w (+bottom); every ordered pair for union / "
         "least_upper_bound / pseudo_join / widen (result must contain both member sets) and intersection (every common "
         "member); triples for least_upper_bound; every query (eval n in {0,1,2,|g|,|g|+1,2^w+1} x signedness, min, max, "
-        "cardinality, solution(v) for all v) compared exactly with the member set",
+        "cardinality, solution(v) for all v) compared exactly with the member set; at widths 32 / 64 a boundary family of "
+        "intervals (bounds and strides on the 2^53, 2^(w-1), 2^w edges): cardinality, solution on boundary values, unsigned "
+        "min / max of non-wrapping intervals, eval(1..2) against the arithmetically known member set",
     )
     widths = (1, 2, 3) if tier == "quick" else (1, 2, 3, 4)
     nstates = 0
@@ -194,6 +279,13 @@ def run(tier: str) -> int:
         for res in pmap(_work, items):
             rep.merge(res)
         rep.sample({"w": w, "states": len(allk), "triple_partner_alphabet": len(trip), "example": allk[len(allk) // 3]})
+    # machine widths: queries on intervals whose member set is known arithmetically (bounds on the 2^53 / 2^(w-1) / 2^w edges)
+    for w in (32, 64):
+        wa = wide_alphabet(w)
+        nstates += len(wa)
+        for res in pmap(_work, [(w, "wide", wa[i::16]) for i in range(16)]):
+            rep.merge(res)
+        rep.sample({"w": w, "wide_states": len(wa), "example": wa[len(wa) // 2]})
     rep.counts["states"] = nstates
     rep.assumptions = ["gamma as in C21; eval completeness: fewer than n values only if that is all of gamma"]
     return rep.finish()
